@@ -1155,11 +1155,16 @@ struct Reducer<'a> {
     mode: String,
     evals: &'a mut u64,
     backward: bool,
+    /// (character class, edge|inner) pairs of the hostile literals of the case being reduced:
+    /// a reduction step must not move a hostile character from the inside of a literal to
+    /// one of its ends or back (defects that only concern the ends of a literal, like
+    /// trimming, would otherwise swallow defects that concern the same character inside)
+    allowed: BTreeSet<String>,
 }
 
 impl<'a> Reducer<'a> {
     fn fails(&mut self, c: &Case) -> bool {
-        if c.quads.is_empty() || !valid_case(c) {
+        if c.quads.is_empty() || !valid_case(c) || !hostile_pairs(c).is_subset(&self.allowed) {
             return false;
         }
         *self.evals += 1;
@@ -1429,16 +1434,33 @@ fn char_class(c: char) -> Option<String> {
         .to_string(),
     )
 }
+/// (class, edge|inner) pairs of the non-alphanumeric characters of one literal
+fn pairs_of(x: &str) -> BTreeSet<String> {
+    let cs: Vec<char> = x.chars().collect();
+    let n = cs.len();
+    cs.iter().enumerate().filter_map(|(i, c)| char_class(*c).map(|k| format!("{}@{}", k, if i == 0 || i + 1 == n { "edge" } else { "inner" }))).collect()
+}
 fn classes(s: &str) -> String {
     if s.is_empty() {
         return "empty".into();
     }
-    let set: BTreeSet<String> = s.chars().filter_map(char_class).collect();
+    let set = pairs_of(s);
     if set.is_empty() {
         "alnum".into()
     } else {
         set.into_iter().collect::<Vec<_>>().join("+")
     }
+}
+fn hostile_pairs(c: &Case) -> BTreeSet<String> {
+    let mut out = BTreeSet::new();
+    for t in terms_of(c) {
+        if let T::Lit(x) = t {
+            if !is_plain_lit(&x) {
+                out.extend(pairs_of(&x));
+            }
+        }
+    }
+    out
 }
 
 fn features(c: &Case) -> Vec<String> {
@@ -1518,7 +1540,7 @@ fn effect(expected: &BTreeSet<LexQuad>, got: &BTreeSet<LexQuad>) -> String {
 fn report_one(ctx: &mut Ctx, c: &Case, f: F, first: &Res, origin: &str, backward: bool) -> Case {
     let mode = first.mode().unwrap_or_default();
     let mut evals = 0u64;
-    let small = Reducer { f, mode: mode.clone(), evals: &mut evals, backward }.reduce(c);
+    let small = Reducer { f, mode: mode.clone(), evals: &mut evals, backward, allowed: hostile_pairs(c) }.reduce(c);
     ctx.add_evals(evals);
     ctx.count("reduction_roundtrips", evals);
     let mut feats = features(&small);
@@ -1567,40 +1589,68 @@ fn literal_classes(c: &Case) -> BTreeSet<String> {
     out
 }
 
-/// Report a failing case.  Several independent defects can hide behind one hostile literal:
-/// reduce from both ends, then neutralise the character classes of the reduced witnesses in
-/// the original (replace them by a letter) and look again, up to four times.
+fn subsets(items: &[String], size: usize) -> Vec<BTreeSet<String>> {
+    fn rec(items: &[String], size: usize, from: usize, cur: &mut Vec<String>, out: &mut Vec<BTreeSet<String>>) {
+        if cur.len() == size {
+            out.push(cur.iter().cloned().collect());
+            return;
+        }
+        for i in from..items.len() {
+            cur.push(items[i].clone());
+            rec(items, size, i + 1, cur, out);
+            cur.pop();
+        }
+    }
+    let mut out = vec![];
+    rec(items, size, 0, &mut vec![], &mut out);
+    out
+}
+
+/// Report a failing case.  Several independent defects can hide behind one hostile literal,
+/// so the character classes are tried apart first: keep the characters of a sub-set S of the
+/// classes (|S| = 0, 1, 2, 3), turn every other non-alphanumeric character into a letter, and
+/// reduce each minimal failing S on its own.  Only if no small S fails is the case reduced
+/// as a whole.
 fn report(ctx: &mut Ctx, c: &Case, f: F, first: &Res, origin: &str) {
-    let mut cur = c.clone();
-    let mut res_owned: Option<Res> = None;
-    for round in 0..4 {
-        let res: &Res = match &res_owned {
-            None => first,
-            Some(r) => r,
-        };
-        if res.mode().is_none() {
-            break;
-        }
-        if round > 0 {
-            ctx.count("further_causes_looked_for_after_neutralising_the_first", 1);
-        }
-        let a = report_one(ctx, &cur, f, res, origin, false);
-        let b = report_one(ctx, &cur, f, res, origin, true);
-        let mut hostile = literal_classes(&a);
-        hostile.extend(literal_classes(&b));
-        if hostile.is_empty() {
-            break;
-        }
-        let next = map_case(&cur, &|t| match t {
-            T::Lit(x) => Some(T::Lit(x.chars().map(|ch| if char_class(ch).map_or(false, |k| hostile.contains(&k)) { 'a' } else { ch }).collect())),
+    let classes: Vec<String> = literal_classes(c).into_iter().collect();
+    let keep = |keep: &BTreeSet<String>| -> Case {
+        map_case(c, &|t| match t {
+            T::Lit(x) if !is_plain_lit(x) => Some(T::Lit(x.chars().map(|ch| if char_class(ch).map_or(true, |k| keep.contains(&k)) { ch } else { 'a' }).collect())),
             _ => None,
-        });
-        if next == cur || !valid_case(&next) {
-            break;
+        })
+    };
+    let mut failing: Vec<BTreeSet<String>> = vec![];
+    if !classes.is_empty() {
+        'sizes: for size in 0..=3usize.min(classes.len()) {
+            for sub in subsets(&classes, size) {
+                if failing.iter().any(|fs| fs.is_subset(&sub)) {
+                    continue;
+                }
+                let cand = keep(&sub);
+                if cand == *c && size < classes.len() {
+                    continue;
+                }
+                if !valid_case(&cand) {
+                    continue;
+                }
+                ctx.add_evals(1);
+                ctx.count("class_isolation_roundtrips", 1);
+                let r = roundtrip(&cand, f, None);
+                if r.mode().is_some() {
+                    report_one(ctx, &cand, f, &r, origin, false);
+                    report_one(ctx, &cand, f, &r, origin, true);
+                    failing.push(sub);
+                    if size == 0 {
+                        // fails with every literal neutralised: the literals are not the cause
+                        break 'sizes;
+                    }
+                }
+            }
         }
-        cur = next;
-        ctx.add_evals(1);
-        res_owned = Some(roundtrip(&cur, f, None));
+    }
+    if failing.is_empty() {
+        report_one(ctx, c, f, first, origin, false);
+        report_one(ctx, c, f, first, origin, true);
     }
 }
 
@@ -1693,7 +1743,9 @@ fn check_dataset(ctx: &mut Ctx, c: &Case, f: F, order: &mut Rng, origin: &str) {
         report(ctx, c, f, &res, origin);
         return;
     }
-    // isolate: every quad on its own, then the quads that are fine on their own together
+    // isolate: every quad on its own, then (of the quads that are fine alone) the groups
+    // sharing subject and predicate (object lists), the groups sharing a subject
+    // (predicate lists), and finally all of them together
     let mut fine: Vec<Qd> = vec![];
     let mut budget = 12;
     for q in &c.quads {
@@ -1706,13 +1758,44 @@ fn check_dataset(ctx: &mut Ctx, c: &Case, f: F, order: &mut Rng, origin: &str) {
             fine.push(q.clone());
         }
     }
-    if fine.len() == c.quads.len() {
-        report(ctx, c, f, &res, origin);
-    } else if fine.len() >= 2 {
-        let rest = Case { quads: fine, prefixes: c.prefixes.clone() };
+    if fine.len() < 2 {
+        return;
+    }
+    let mut explained = false;
+    let mut by_sp: BTreeMap<(T, T, Option<T>), Vec<Qd>> = BTreeMap::new();
+    let mut by_s: BTreeMap<(T, Option<T>), Vec<Qd>> = BTreeMap::new();
+    for q in &fine {
+        by_sp.entry((q.s.clone(), q.p.clone(), q.g.clone())).or_default().push(q.clone());
+        by_s.entry((q.s.clone(), q.g.clone())).or_default().push(q.clone());
+    }
+    let mut bad_subjects: BTreeSet<T> = BTreeSet::new();
+    for (key, group) in by_sp.iter().filter(|(_, g)| g.len() >= 2).take(4) {
+        let sub = Case { quads: group.clone(), prefixes: c.prefixes.clone() };
+        let r = observed_roundtrip(ctx, &sub, f, None);
+        if r.mode().is_some() {
+            ctx.count("object_lists_failing_although_every_quad_alone_is_fine", 1);
+            report(ctx, &sub, f, &r, origin);
+            explained = true;
+            bad_subjects.insert(key.0.clone());
+        }
+    }
+    let object_list_subjects = bad_subjects.clone();
+    for (key, group) in by_s.iter().filter(|(k, g)| g.len() >= 2 && !object_list_subjects.contains(&k.0)).take(4) {
+        let sub = Case { quads: group.clone(), prefixes: c.prefixes.clone() };
+        let r = observed_roundtrip(ctx, &sub, f, None);
+        if r.mode().is_some() {
+            ctx.count("subject_groups_failing_although_every_quad_alone_is_fine", 1);
+            report(ctx, &sub, f, &r, origin);
+            explained = true;
+            bad_subjects.insert(key.0.clone());
+        }
+    }
+    let rest: Vec<Qd> = fine.iter().filter(|q| !bad_subjects.contains(&q.s)).cloned().collect();
+    if rest.len() >= 2 || (!explained && fine.len() == c.quads.len()) {
+        let rest = if rest.len() >= 2 { Case { quads: rest, prefixes: c.prefixes.clone() } } else { c.clone() };
         let r2 = observed_roundtrip(ctx, &rest, f, None);
         if r2.mode().is_some() {
-            ctx.count("datasets_failing_although_every_quad_alone_is_fine", 1);
+            ctx.count("datasets_failing_although_every_quad_and_every_subject_group_alone_is_fine", 1);
             report(ctx, &rest, f, &r2, origin);
         }
     }
